@@ -1,9 +1,11 @@
 package rules
 
 import (
+	"fmt"
 	"go/ast"
 	"go/token"
 	"go/types"
+	"strconv"
 	"strings"
 
 	"osmcheck/core"
@@ -94,8 +96,14 @@ func (x *c03Interp) eval(fr *c03Frame, st *c03State, e ast.Expr) []c03EV {
 				return c03One(st, v)
 			}
 			if o.Pkg() != nil && o.Parent() == o.Pkg().Scope() {
-				if init, gfi := x.globalInit(o); init != nil && fr.depth < 8 {
-					return x.eval(&c03Frame{fi: gfi, parent: fr, depth: fr.depth + 1, label: "initialiser of " + o.Name()}, st, init)
+				if init, gfi := x.globalInit(o); init != nil && fr.depth < c03MaxDepth {
+					var out []c03EV
+					for _, ev := range x.eval(&c03Frame{fi: gfi, parent: fr, depth: fr.depth + 1, label: "initialiser of " + o.Name()}, st, init) {
+						c := *ev.v
+						c.Shared = o
+						out = append(out, c03EV{ev.st, &c})
+					}
+					return out
 				}
 				return c03One(st, x.Param(o))
 			}
@@ -167,6 +175,17 @@ func (x *c03Interp) eval(fr *c03Frame, st *c03State, e ast.Expr) []c03EV {
 				}
 			}
 			if out, ok := x.addrOf(fr, st, e.X, t); ok {
+				return out
+			}
+			if ix, ok := ast.Unparen(e.X).(*ast.IndexExpr); ok {
+				// &x[i]: a pointer to (a copy of) the element - reads through it see the element; a write through it is
+				// not carried back into the slice
+				var out []c03EV
+				for _, ev := range x.eval(fr, st, ix) {
+					p := x.alloc(ev.st, ev.v, t, e)
+					p.From = []*c03V{ev.v}
+					out = append(out, c03EV{ev.st, p})
+				}
 				return out
 			}
 			var out []c03EV
@@ -247,6 +266,12 @@ func (x *c03Interp) eval(fr *c03Frame, st *c03State, e ast.Expr) []c03EV {
 		var out []c03EV
 		for _, o := range x.evalList(fr, st, []ast.Expr{e.X, e.Index}) {
 			b, i := o.vs[0], o.vs[1]
+			if forks := x.mapLookupForks(o.st, b, i, t); forks != nil {
+				for _, f := range forks {
+					out = append(out, c03EV{f.st, f.v})
+				}
+				continue
+			}
 			if hit, known := c03MapLookup(b, i); known {
 				if hit == nil {
 					hit = c03ZeroValue(t)
@@ -751,6 +776,12 @@ func (x *c03Interp) calleeParts(fr *c03Frame, st *c03State, call *ast.CallExpr) 
 			recvE = &ast.UnaryExpr{Op: token.AND, X: recvE} // evaluated by the & rule: an interior pointer derived from the base object
 		}
 	}
+	methodExpr := false
+	if sel, ok := ast.Unparen(call.Fun).(*ast.SelectorExpr); ok && fn != nil {
+		if s := info.Selections[sel]; s != nil && s.Kind() == types.MethodExpr {
+			methodExpr = true // T.m(recv, args...): the first argument is the receiver
+		}
+	}
 	exprs := call.Args
 	funcValue := false
 	if recvE != nil {
@@ -779,6 +810,9 @@ func (x *c03Interp) calleeParts(fr *c03Frame, st *c03State, call *ast.CallExpr) 
 				recv = x.field(o.st, recv, f, call, fr)
 			}
 			args = o.vs[1:]
+		}
+		if methodExpr && recv == nil && len(args) > 0 {
+			recv, args = args[0], args[1:]
 		}
 		out = append(out, c03Callee{st: o.st, fn: fn, recv: recv, args: args})
 	}
@@ -828,14 +862,24 @@ func (x *c03Interp) apply(fr *c03Frame, st *c03State, call *ast.CallExpr, fn *ty
 	}
 	if fi := x.inlinable(fn); fi != nil && fn.Type().(*types.Signature).TypeParams().Len() > 0 {
 		st.event(c03Event{Kind: "unsupported", Node: call, Frame: fr, Call: call, Why: "call of the generic function " + funcName(fn) + ": type arguments are not substituted by the analysis"})
-	} else if fi != nil && fr.depth < 8 {
-		rec := false
+	} else if fi != nil && fr.depth < c03MaxDepth {
+		// a helper may be active more than once on a path (a wrapper writing nested wrappers through a callback);
+		// genuine recursion is cut after a few activations
+		active := 0
 		for f := fr; f != nil; f = f.parent {
-			if f.fi.Obj == fn {
-				rec = true
+			if f.fi.Obj == fn && f.lit == nil && f.label == "" {
+				active++
 			}
 		}
-		if !rec {
+		if active < 3 {
+			if active > 0 {
+				restore := c03SaveScope(st, fi.Decl)
+				evs := x.inline(fr, st, call, fi, recv, args, t)
+				for _, ev := range evs {
+					restore(ev.st)
+				}
+				return evs
+			}
 			return x.inline(fr, st, call, fi, recv, args, t)
 		}
 	}
@@ -891,6 +935,9 @@ func (x *c03Interp) apply(fr *c03Frame, st *c03State, call *ast.CallExpr, fn *ty
 
 // stdModel models a few standard-library functions whose result the rules depend on.
 func (x *c03Interp) stdModel(st *c03State, fn *types.Func, recv *c03V, args []*c03V, t types.Type) ([]*c03V, bool) {
+	if s, ok := c03FoldString(fn, args); ok {
+		return []*c03V{{K: c03KStr, Str: s, T: t}}, true
+	}
 	switch {
 	case isPkgFunc(fn, "strings", "ToLower"), isPkgFunc(fn, "strings", "ToUpper"):
 		if len(args) == 1 {
@@ -997,6 +1044,9 @@ func (x *c03Interp) evalBuiltin(fr *c03Frame, st *c03State, call *ast.CallExpr, 
 			}
 			out = append(out, c03EV{o.st, l})
 		default:
+			if name == "delete" || name == "clear" || name == "copy" {
+				o.st.event(c03Event{Kind: "builtin", Node: call, Frame: fr, Call: call, Args: o.vs, Why: name})
+			}
 			u := x.unk(t)
 			u.From = o.vs
 			out = append(out, c03EV{o.st, u})
@@ -1130,4 +1180,105 @@ func c03IntOp(op token.Token, a, b int64) (int64, bool) {
 		}
 	}
 	return 0, false
+}
+
+// c03MaxDepth bounds the stack of entered functions and literals.
+const c03MaxDepth = 20
+
+type c03LookupFork struct {
+	st    *c03State
+	v     *c03V
+	found bool
+}
+
+// mapLookupForks: a table with constant string keys is consulted with a string the path does not know: one path per
+// entry (on which the string is that key) and one on which it is none of them. nil when the case does not apply.
+func (x *c03Interp) mapLookupForks(st *c03State, m, key *c03V, t types.Type) []c03LookupFork {
+	if m == nil || key == nil || m.K != c03KList || m.Base != nil || len(m.Keys) == 0 || len(m.Keys) != len(m.Elems) {
+		return nil
+	}
+	if (key.K != c03KInit && key.K != c03KUnk) || key.Key == "" {
+		return nil
+	}
+	if _, known := st.strs[key.Key]; known {
+		return nil
+	}
+	for _, k := range m.Keys {
+		if k.K != c03KStr {
+			return nil
+		}
+	}
+	var out []c03LookupFork
+	for i, k := range m.Keys {
+		if st.known[c03StrKey(key.Key, k.Str)] == triF {
+			if _, ruled := st.known[c03StrKey(key.Key, k.Str)]; ruled {
+				continue
+			}
+		}
+		if !x.spend() {
+			break
+		}
+		s := st.clone()
+		s.refine(c03StrKey(key.Key, k.Str), triT)
+		out = append(out, c03LookupFork{s, m.Elems[i], true})
+	}
+	for _, k := range m.Keys {
+		st.refine(c03StrKey(key.Key, k.Str), triF)
+	}
+	return append(out, c03LookupFork{st, c03ZeroValue(t), false})
+}
+
+// c03FoldString evaluates the string-building functions of the standard library on known values: fmt.Sprintf with
+// %s %v %d %q verbs, fmt.Sprint, strconv.Quote / Itoa, strings.Join of known parts are compile-time-like constants
+// of the path (names built from constants).
+func c03FoldString(fn *types.Func, args []*c03V) (string, bool) {
+	known := func(v *c03V) (interface{}, bool) {
+		switch v.K {
+		case c03KStr:
+			return v.Str, true
+		case c03KInt:
+			return v.Int, true
+		case c03KBool:
+			return v.Bool, true
+		}
+		return nil, false
+	}
+	var vals []interface{}
+	flat := args
+	if len(args) > 0 {
+		if last := args[len(args)-1]; last != nil && last.K == c03KList && last.Base == nil && (isPkgFunc(fn, "fmt", "Sprintf") || isPkgFunc(fn, "fmt", "Sprint")) {
+			flat = append(append([]*c03V{}, args[:len(args)-1]...), last.Elems...)
+		}
+	}
+	for _, a := range flat {
+		k, ok := known(a)
+		if !ok {
+			return "", false
+		}
+		vals = append(vals, k)
+	}
+	switch {
+	case isPkgFunc(fn, "fmt", "Sprintf") && len(vals) >= 1:
+		f, ok := vals[0].(string)
+		if !ok {
+			return "", false
+		}
+		for i := 0; i+1 < len(f); i++ {
+			if f[i] == '%' && !strings.ContainsRune("svdq%", rune(f[i+1])) {
+				return "", false
+			}
+		}
+		return fmt.Sprintf(f, vals[1:]...), true
+	case isPkgFunc(fn, "fmt", "Sprint"):
+		return fmt.Sprint(vals...), true
+	case isPkgFunc(fn, "strconv", "Quote") && len(vals) == 1:
+		if s, ok := vals[0].(string); ok {
+			return strconv.Quote(s), true
+		}
+	case isPkgFunc(fn, "strconv", "Itoa") && len(vals) == 1:
+		if n, ok := vals[0].(int64); ok {
+			return strconv.FormatInt(n, 10), true
+		}
+	}
+	return "", false
 }
